@@ -2,7 +2,10 @@
  * C07: LD_PRELOAD shim that delivers SIGTERM to the step runner at a chosen
  * point: C07_RAISE_AT=fork (right after fork() returned in the parent) or
  * C07_RAISE_AT=waitpid (right before its first waitpid() call).  Only acts in
- * a process whose name is robsd-exec, once.
+ * a process whose name is robsd-exec, once.  C07_RAISE_AT=zombie: right before
+ * the first waitpid(-pgid, WNOHANG) call that will find the step's main
+ * process already exited (a zombie) - the request arrives after the runner's
+ * last look at its signal flag and before it reaps the step.
  */
 #define _GNU_SOURCE
 #include <dlfcn.h>
@@ -63,5 +66,12 @@ waitpid(pid_t pid, int *status, int options)
 	if (real == NULL)
 		real = (pid_t (*)(pid_t, int *, int))dlsym(RTLD_NEXT, "waitpid");
 	maybe_raise("waitpid");
+	if (pid < -1 && (options & WNOHANG)) {
+		siginfo_t si;
+
+		memset(&si, 0, sizeof(si));
+		if (waitid(P_PGID, (id_t)-pid, &si, WEXITED | WNOHANG | WNOWAIT) == 0 && si.si_pid != 0)
+			maybe_raise("zombie");
+	}
 	return real(pid, status, options);
 }
